@@ -231,7 +231,8 @@ func (c *client) newRequest(ctx context.Context, body []byte) (request, error) {
 	req := request{Request: r}
 
 	switch c.compression {
-	case NoCompression:
+	default:
+		// NoCompression, and any unknown value, sends the payload as is.
 		r.ContentLength = (int64)(len(body))
 		req.bodyReader = bodyReader(body)
 	case GzipCompression:
